@@ -9,6 +9,7 @@ import json
 import random
 from fractions import Fraction
 
+import c06_numeric
 import k2
 import lib
 from k2 import Pool, HASHABLE_POOL, UserError
@@ -765,6 +766,10 @@ def run(chk):
     chk.cov["distinct_nontrivial_sequence_equal_observable"] = len(nt)
     chk.cov["distinct_nontrivial"] += len(nt)
     chk.cov["sequence_equal_observable"] = hist
+    nt2, hist2 = c06_numeric.run_family(chk)
+    chk.cov["distinct_nontrivial_numeric_family"] = len(nt2)
+    chk.cov["distinct_nontrivial"] += len(nt2)
+    chk.cov["numeric_family"] = hist2
     chk.cov["rule"] += ("; comparer parameters are drawn from small families mirrored in Gallina: min / max / min_by / "
                         "max_by -- default, reversed order, order of residues modulo m, magnitudes other than +-1, "
                         "raising on some pairs (reference: Python min/max under functools.cmp_to_key, judged when the "
@@ -778,19 +783,30 @@ def run(chk):
                         "(emissions + subscribe/unsubscribe instants), oracle = answer recomputed from scratch after "
                         "every notification (see sequence_equal_observable); non-trivial there = distinct (comparer, "
                         "delivered inputs) of >= 3 notifications with a decided answer and the oracle satisfied")
+    chk.cov["rule"] += c06_numeric.RULE
     return chk.finish(trusted_extra=["hot-source K2 driver (harness/k2.py); callback tables mirrored in Gallina",
                                      "average: the model yields the exact pair (sum, count); the harness compares it "
                                      "with the implementation's float as an exact fraction (ints below 2^53)",
-                                     "two-source driver harness/k2m.py (run_multi) for sequence_equal(observable)"],
+                                     "two-source driver harness/k2m.py (run_multi) for sequence_equal(observable)",
+                                     "numeric family (harness/c06_numeric.py): oracle only, no Coq model -- the "
+                                     "reference is Python's own min / max / sum / float arithmetic"],
                       assumptions=["comparers handed to the operators are symmetric in their arguments (the code calls "
                                    "comparer(queued, arriving), i.e. with the two sides in either order); the property "
                                    "text does not fix an argument order",
-                                   "the float path of average (non-integer elements) is not run: results are compared "
-                                   "as exact fractions of integers"])
+                                   "the float path of average is outside the Coq model (the table compares exact "
+                                   "fractions of integers); it is run by the oracle-only numeric family, which accepts "
+                                   "every usual way of writing the mean (fold of float(x) / float(n), sum / len, fmean)",
+                                   "numeric family: min_by / max_by are not judged when a comparison of two keys is "
+                                   "NaN (inf - inf), sequence_equal not on NaN under the default comparer, "
+                                   "average(key_mapper) not on Decimal keys (Decimal / float raises TypeError; the "
+                                   "text is silent) -- counted in numeric_family.not_judged"])
 
 
 def replay(chk, path):
     d = json.load(open(path))
+    if d.get("family") == "numeric":
+        lib.import_repo()
+        return c06_numeric.replay(path, d)
     if d.get("family") == "seq_equal_obs":
         case = se_case(d["case_seed"])
         res = se_run(case)
